@@ -262,6 +262,7 @@ func Respell(t *rapid.T, p *Prog) RespellInfo {
 		f := aliasFile[user]
 		if f == nil {
 			f = &File{Name: "zalias.go", Kind: FileRegular, Pkg: user, Aliases: map[*Pkg]string{}}
+			applyDupAliases(p, f)
 			aliasFile[user] = f
 			user.Files = append(user.Files, f)
 		}
@@ -276,8 +277,9 @@ func Respell(t *rapid.T, p *Prog) RespellInfo {
 		}
 		tp := thirdPkg[td.Pkg]
 		if tp == nil {
-			tp = &Pkg{Dir: "al" + strings.NewReplacer("/", "", "-", "", ".", "").Replace(td.Pkg.Dir), Name: "al" + td.Pkg.Name}
+			tp = &Pkg{Dir: "al" + strings.NewReplacer("/", "", "-", "", ".", "").Replace(td.Pkg.Dir), Name: fmt.Sprintf("al%s%d", td.Pkg.Name, td.Pkg.Idx), Idx: 100 + td.Pkg.Idx}
 			tp.Files = []*File{{Name: "f0.go", Kind: FileRegular, Pkg: tp, Aliases: map[*Pkg]string{}}}
+			applyDupAliases(p, tp.Files[0])
 			thirdPkg[td.Pkg] = tp
 			// insert right after the declaring package (dependency order)
 			var np []*Pkg
@@ -330,8 +332,8 @@ func Respell(t *rapid.T, p *Prog) RespellInfo {
 			for _, ip := range f.Imports {
 				if rapid.IntRange(0, 9).Draw(t, "renameImport") < 2 {
 					if f.Aliases[ip] == "" {
-						f.Aliases[ip] = "ri" + ip.Name
-					} else {
+						f.Aliases[ip] = fmt.Sprintf("ri%s%d", ip.Name, ip.Idx)
+					} else if !dupName(p, ip) {
 						f.Aliases[ip] = ""
 					}
 					info.ImportRename++
@@ -468,4 +470,24 @@ func SaltNearMiss(t *rapid.T, p *Prog) SaltInfo {
 		}
 	}
 	return info
+}
+
+// dupName: another package of the program declares the same package name.
+func dupName(p *Prog, pk *Pkg) bool {
+	for _, q := range p.Pkgs {
+		if q != pk && q.Name == pk.Name {
+			return true
+		}
+	}
+	return false
+}
+
+// applyDupAliases gives a new file explicit aliases for packages whose
+// declared name is not unique in the program.
+func applyDupAliases(p *Prog, f *File) {
+	for _, pk := range p.Pkgs {
+		if dupName(p, pk) && f.Aliases[pk] == "" {
+			f.Aliases[pk] = fmt.Sprintf("%s%d", pk.Name, pk.Idx)
+		}
+	}
 }
